@@ -89,8 +89,8 @@ P = {
          'leaves upstream/unrelated tasks and (without delete_data) the store untouched, delete_data removes exactly the forced '
          'persisting results, a forced task goes through run on its next request and replaces the stored result. Correspondence: '
          'random histories with task/chain forcing and all flags vs the model per operation; oracle with an independent graph search.',
-    note='"recompute runs every forced task exactly once for every iteration order" is decided by oracle + correspondence (the observed '
-         'iteration order is fed to the model); networkx is replaced by the model\'s own reachability',
+    note='recompute_all_once (every forced task exactly once for EVERY iteration order) and forced_runs_once are theorems for failure-free '
+         'runs; the observed iteration order is fed to the model in the correspondence; networkx is replaced by the model own reachability',
     technique='Lean 4 proof (reachability induction, state-effect lemmas) + differential correspondence',
     ref='§4 C07'),
  'C08': dict(
